@@ -83,7 +83,8 @@ def run(tier, seed):
             # parameters moved describes the CURRENT weight(), weight_inverse() and logabsdet()
             import copy
             saved = copy.deepcopy(t.state_dict())
-            hists = (("eval", "cache-on", "pass", "cache-off", "train", "move", "eval", "cache-on"),
+            hists = (("eval", "pass", "move-data", "eval"), ("eval", "cache-off", "pass", "move-data-rebind"),
+                     ("eval", "cache-on", "pass", "cache-off", "train", "move", "eval", "cache-on"),
                      ("eval", "cache-on", "pass", "train", "move", "eval"),
                      ("eval", "cache-on", "pass", "cache-off", "train", "cache-on", "move", "eval"),
                      ("eval", "cache-on", "pass", "train", "cache-off", "move", "cache-on", "eval"))
@@ -106,6 +107,12 @@ def run(tier, seed):
                         with torch.no_grad():
                             for q_ in t.parameters():
                                 q_.mul_(1.25).add_(0.05)
+                    elif step == "move-data":           # as torch.nn.utils.vector_to_parameters and older optimisers write
+                        for q_ in t.parameters():
+                            q_.data.mul_(1.25).add_(0.05)
+                    elif step == "move-data-rebind":
+                        for q_ in t.parameters():
+                            q_.data = q_.data * 1.25 + 0.05
                 if not ok_:
                     continue
                 with torch.no_grad():
@@ -117,6 +124,13 @@ def run(tier, seed):
                     e_f = float((cf[1][0] - (x @ W2.T + t.bias)).abs().max())
                     e_i = float((ci[1][0] - ((x - t.bias) @ Wi2.T)).abs().max())
                     e_l = max(float((cf[1][1] - lad2).abs().max()), float((ci[1][1] + lad2).abs().max()))
+                    e_d = abs(float(torch.linalg.slogdet(W2)[1]) - float(lad2))       # the accessors among themselves
+                    e_w = float((W2 @ Wi2 - torch.eye(nfeat, dtype=W2.dtype)).abs().max())
+                    if e_d > 1e-8 * max(1.0, nfeat) or e_w > tol2:
+                        ck.finding("linear:%s:accessors-disagree-after-parameter-move" % name,
+                                   "history %s: log|det weight()| differs from logabsdet() by %g, weight() weight_inverse() from I by %g"
+                                   % (" > ".join(hist), e_d, e_w), dict(case, history=list(hist)))
+                        break
                     if e_f > tol2 or e_i > tol2 or e_l > 1e-9 * max(1.0, nfeat):
                         ck.finding("linear:%s:cached-pass-stale-after-parameter-move" % name,
                                    "history %s: forward differs from W x + b by %g, inverse from W^-1 (x - b) by %g, logabsdet by %g"
